@@ -62,7 +62,7 @@ PROPS = {
  "C09": P("TestC09", "exploration",
           "rapid generates 2.0.5 chains (PIP-10 averaging active, window 3-8 blocks or longer than the chain, prices moving up to 8% per block so that average != spot, 0-3 conversions per block, transfers, "
           "one height in six ungraded), general 2.0.2+ chains (some crossing a snapshot height) and timeline chains through every era, with 1-4 restart heights biased to "
-          "active heights and the block before them. The registered finding C09/avg-window (reload by height vs. trim by count) is recognised exactly: the cache bookkeeping is replayed on the rated heights of the "
+          "active heights and the block before them; a third of the chains carry a hard fork (adequately synced) with a restart right below, at or right above its height. The registered finding C09/avg-window (reload by height vs. trim by count) is recognised exactly: the cache bookkeeping is replayed on the rated heights of the "
           "continuous run for both processes, and only the restart heights at which it predicts different contributing heights at or above the PIP-10 activation are dropped (counted). Oracle: ledger dump of the continuous run == ledger dump of the run with a clean Close/NewPegnetd at every restart height. "
           "Non-trivial = PIP-10 chain with >= 1 conversion; distinct by (start, window, shape, restart set).",
           quick=(8, 10), thorough=(16, 160), timeout=(600, 3000)),
